@@ -103,14 +103,20 @@ func build(n *tg.Node) *cnode {
 }
 
 // buildSchema: root schema `name` with all graph types added; selfAdd registers the root itself
-// under its own name (instead of a fresh copy of the type's text).
-func buildSchema(g *tg.Graph, name string, root *tg.Node, selfAdd bool) *cschema {
+// under its own name (instead of a fresh copy of the type's text). linked: every type's own table
+// holds every type as well (one shared universe of type objects).
+func buildSchema(g *tg.Graph, name string, root *tg.Node, selfAdd, linked bool) *cschema {
 	rs := &cschema{root: build(root), table: map[string]*cschema{}}
 	for _, t := range g.Types {
 		if selfAdd && t.Name == name {
 			rs.table[t.Name] = rs
 		} else {
 			rs.table[t.Name] = &cschema{root: build(t.Body), table: map[string]*cschema{}}
+		}
+	}
+	if linked {
+		for _, t := range rs.table {
+			t.table = rs.table
 		}
 	}
 	return rs
@@ -136,11 +142,11 @@ func fail(class, name, why string) { panic(cerr{class: class, name: name, why: w
 
 // PredictClass: the class of Check()'s verdict as coded: OK, E703, E1302, E1303, E1304, E104, OTHER.
 func PredictClass(g *tg.Graph, name string, root *tg.Node, selfAdd bool) string {
-	return Predict(g, name, root, selfAdd).class
+	return Predict(g, name, root, selfAdd, false).class
 }
 
 // Predict returns the class of Check()'s verdict: "OK" or the first error.
-func Predict(g *tg.Graph, name string, root *tg.Node, selfAdd bool) (res cerr) {
+func Predict(g *tg.Graph, name string, root *tg.Node, selfAdd, linked bool) (res cerr) {
 	defer func() {
 		if r := recover(); r != nil {
 			if e, ok := r.(cerr); ok {
@@ -150,7 +156,7 @@ func Predict(g *tg.Graph, name string, root *tg.Node, selfAdd bool) (res cerr) {
 			panic(r)
 		}
 	}()
-	m := &mirror{rs: buildSchema(g, name, root, selfAdd), processing: map[string]bool{}, compiled: map[string]bool{},
+	m := &mirror{rs: buildSchema(g, name, root, selfAdd, linked), processing: map[string]bool{}, compiled: map[string]bool{},
 		found: map[string]bool{}, allowed: map[string]bool{}, visited: map[string]bool{name: true}}
 	m.compileAllOf()
 	m.checkRootSchema()
